@@ -11,6 +11,18 @@ CHECKS = {
  "C01": ("exploration", E1 + ": expression trees vs an exact reference evaluator",
          "Every fully parenthesised expression tree up to 4 (thorough 5) leaves over a literal ladder and all five operators is evaluated by the real parser+evaluator and compared with an independent exact evaluator run on the generating tree; exhaustive within the stated bound.",
          "num::BigRational is exact; sizes between the ladder rungs behave like the rungs; layout/precedence are C06's subject.", "3 C01"),
+ "C02": ("exploration", E1 + ": all ordered pairs of a unit-spelling set x {+,-,to} vs dimension vectors of an independent unit table",
+         "Every ordered pair of ~390 (thorough ~1000) unit spellings (all units, prefixed, products/quotients, cancelling spellings) under + - and to, plus plain-number adoption in both operand orders: Ok iff the independent table gives equal base dimensions, with exact SI value and the cast result expressed in the target unit.",
+         "Independent unit table (tables.rs); syntactically cancelling spellings (m/m) and prefixed words the tool rejects are not judged.", "3 C02"),
+ "C03": ("exploration", E1 + ": commensurable unit pairs, prefixes, powers, composites vs SI scales, plus table-free conversion laws on the real code",
+         "All ordered pairs per commensurability class x magnitudes, every prefix spelling, powers -3..3, 2-4 factor composites against the table; round-trip, via-unit and scaling laws evaluated on the real code only (no table).",
+         "Independent unit table for the direct oracle; the laws need none. Words misread by the unit lexer are left to C05.", "3 C03"),
+ "C04": ("exploration", E1 + ": products/quotients/powers of quantities vs SI value and dimension arithmetic",
+         "All pairs of 39 quantity spellings under * and / (either side parenthesised), all triples over a core, (q)^n for n=-3..3 for every documented unit; SI value and base dimensions must equal the reference evaluation of the tree.",
+         "Independent unit table; display unit never compared.", "3 C04"),
+ "C05": ("exploration", E1 + ": the whole unit vocabulary (names x prefixes, 2- and 3-name concatenations, unit expressions) vs independent segmentation",
+         "Every name x every prefix spelling, every 2-name concatenation, short 3-name concatenations and all unit expressions of <=3 (4) items through both entry points; an accepted word must mean one of its valid segmentations over the independent table, bare documented names their own (standard) meaning.",
+         "Independent table; nine recorded findings (logos lexer drops characters; three test-pinned definitions) are listed in known_findings.txt.", "3 C05"),
  "C06": ("exploration", E1 + ": operator sequences x bracketings x blank layouts vs the documented precedence table",
          "All operator sequences up to length 5 over + - * / ^ with every bracketing (Catalan), minimal and full parentheses, redundant parentheses, function-argument position, `to` chains, and blank layouts (all combinations for <=2 operators, uniform + 1/2-slot deviations beyond) are evaluated and compared with the reference evaluation of the tree the documented grammar prescribes.",
          "Trees outside the statement's domain (non-integer or >1000 exponents) are counted, not judged; + - and `to` keep >=1 blank as the statement says.", "3 C06"),
@@ -23,6 +35,24 @@ CHECKS = {
  "C10": ("exploration", E1 + ": rational grid x {floor,ceil,round,round(x,n)} vs integer-arithmetic definitions, in release and debug-assertion builds",
          "Every p/q of a grid (negatives, integers, halves, boundary +-10^-k) through floor/ceil/round/round(x,n), n=-6..6, units carried, wrong arities; compared with exact integer definitions; both build profiles so debug-only assertions count.",
          "Non-integer digits arguments are not judged.", "3 C10"),
+ "C09": ("exploration", E1 + ": magnitudes x scale pairs x chains x non-alone positions vs the affine formulas",
+         "12 magnitudes x 36 scale-spelling pairs, all chains up to length 4, and every placement of a scale that is not alone with power one (powers, products, quotients) - the latter must be refused or treated as an interval.",
+         "The affine formulas are written out in the harness.", "3 C09"),
+ "C12": ("exploration", E1 + ": all strings up to length 5 (thorough 6) over a 40-symbol alphabet through lexer and parser",
+         "105 M (thorough 4.2 G) strings: tokens non-empty, on char boundaries, tile the input; the tree's token leaves equal the token stream.",
+         "Longer strings only via C11.", "3 C12"),
+ "C13": ("exploration", E1 + ": field-law instances over literal quantities and every shipped fact, both sides evaluated by the real code",
+         "Commutativity over pairs of ~125 literal quantities and ~770 facts, a-a, a/a for all, associativity and distributivity over a core of triples; both sides compared in SI normal form within one Db instance.",
+         "Independent unit table for the SI normal form; plain-number adoption and zero divisors are outside the laws' preconditions.", "3 C13"),
+ "C16": ("exploration", E1 + ": every shipped constant x every permutation of its words",
+         "All 878 constants decoded independently; every typeable permutation of their words is looked up with descriptions on.",
+         "One in-memory Db per worker.", "3 C16"),
+ "C17": ("exploration", E1 + ": all derived units x powers x prefixes, compounds, rational grid, every shipped constant through encode/decode",
+         "CBOR (and JSON for rationals) round trips; ids pairwise distinct and equal to the documented ids pinned in the harness; decoded units are the same statics.",
+         "serde_cbor/serde_json are faithful carriers.", "3 C17"),
+ "C18": ("model_checking", "explicit-state search over operation histories executed on the real Db (state = history, canonicalised by probe-set answers) plus exhaustive expression enumeration",
+         "All histories of length <=3 (4) over 12 operations on one shared Db: every step must answer as on a fresh Db and leave the probe-set answers unchanged; all expressions with <=3 operands over literals and fact phrases with describe on/off.",
+         "The model is the implementation itself (no abstraction): every explored trace is an implementation trace.", "3 C18"),
 }
 
 NOT_APPLICABLE = {
